@@ -21,6 +21,9 @@ type caseC20 struct {
 	Faults []model.Fault
 	Pretty bool
 	Sort   string
+	Since  *model.Date `json:",omitempty"` // --since filter
+	Now    bool        `json:",omitempty"` // --now (open ranges closed at the clock of Env)
+	Env    model.Env
 }
 
 func genC20(t *rapid.T, ev *evid.Rec) caseC20 {
@@ -35,6 +38,23 @@ func genC20(t *rapid.T, ev *evid.Rec) caseC20 {
 	}
 	c.Pretty = rapid.Bool().Draw(t, "pretty")
 	c.Sort = rapid.SampledFrom([]string{"", "", "asc", "desc", "ASC"}).Draw(t, "sort")
+	c.Env = model.Env{NowDay: model.DaysFromCivil(2024, 5, 5), NowSec: rapid.IntRange(0, 86399).Draw(t, "nowSec")}
+	if len(d.Records) > 0 {
+		c.Env.NowDay = d.Records[rapid.IntRange(0, len(d.Records)-1).Draw(t, "nowRec")].Date.Days() + rapid.IntRange(0, 1).Draw(t, "nowDelta")
+		if c.Env.NowDay < model.MinDay+2 || c.Env.NowDay > model.MaxDay-2 {
+			c.Env.NowDay = model.DaysFromCivil(2024, 5, 5)
+		}
+	}
+	if len(c.Faults) == 0 {
+		if len(d.Records) > 0 && rapid.IntRange(0, 3).Draw(t, "withSince") == 0 {
+			sd := d.Records[rapid.IntRange(0, len(d.Records)-1).Draw(t, "sinceRec")].Date
+			sd = model.DateOfDays(sd.Days()+rapid.IntRange(-1, 2).Draw(t, "sinceDelta"), false)
+			if sd.Days() >= model.MinDay && sd.Days() <= model.MaxDay {
+				c.Since = &sd
+			}
+		}
+		c.Now = rapid.IntRange(0, 3).Draw(t, "now") == 0
+	}
 	return c
 }
 
@@ -222,10 +242,51 @@ func checkC20(c caseC20) (Outcome, error) {
 			text = model.TextOf(fl)
 		}
 	}
-	h := newHarness(goTime(model.DaysFromCivil(2024, 5, 5), 600), "")
+	h := newHarness(envTime(c.Env), "")
 	defer h.Close()
 	f := h.WriteFile("in.klg", text)
-	res := h.RunJson([]string{f}, c.Pretty, false, util.FilterArgs{}, c.Sort)
+	filter := util.FilterArgs{}
+	if c.Since != nil {
+		filter.Since = klogDate(*c.Since)
+	}
+	// the document the JSON must describe: open ranges closed at the clock (--now), then filtered
+	want := c.Doc
+	if valid && c.Now {
+		_, closable, _ := refClose(c.Doc, c.Env.NowDay, c.Env.NowMin())
+		if !closable {
+			res := h.RunJson([]string{f}, c.Pretty, true, filter, c.Sort)
+			if res.Err == nil {
+				return out, fmt.Errorf("klog json --now succeeded although an open range cannot be closed at %s\ntext: %s", envString(c.Env), quoteShort(text))
+			}
+			out.Label("now-refused")
+			return out, nil
+		}
+		want = model.Doc{}
+		for _, r := range c.Doc.Records {
+			nr := r
+			nr.Entries = append([]model.Entry{}, r.Entries...)
+			if oi := r.OpenIndex(); oi >= 0 {
+				e := nr.Entries[oi]
+				e.Kind = model.KRange
+				e.End = model.Time{Off: (c.Env.NowDay-r.Date.Days())*1440 + c.Env.NowMin()}
+				e.DashL, e.DashR = " ", " "
+				nr.Entries[oi] = e
+				out.Label("closed-by-now")
+			}
+			want.Records = append(want.Records, nr)
+		}
+	}
+	if valid && c.Since != nil {
+		filtered := model.Doc{}
+		for _, r := range want.Records {
+			if r.Date.Days() >= c.Since.Days() {
+				filtered.Records = append(filtered.Records, r)
+			}
+		}
+		want = filtered
+		out.Label("filtered")
+	}
+	res := h.RunJson([]string{f}, c.Pretty, valid && c.Now, filter, c.Sort)
 	if res.Err != nil {
 		return out, fmt.Errorf("klog json failed: %s", res.Err.Error())
 	}
@@ -249,7 +310,7 @@ func checkC20(c caseC20) (Outcome, error) {
 		return out, fmt.Errorf("exactly one of records/errors must be non-null: %s", quoteShort(res.Out))
 	}
 	// --pretty and compact must denote the same tree
-	res2 := h.RunJson([]string{f}, !c.Pretty, false, util.FilterArgs{}, c.Sort)
+	res2 := h.RunJson([]string{f}, !c.Pretty, valid && c.Now, filter, c.Sort)
 	v2, err2 := model.ParseJSON(res2.Out)
 	if res2.Err != nil || err2 != nil || fmt.Sprint(dumpJSON(v2)) != fmt.Sprint(dumpJSON(v)) {
 		return out, fmt.Errorf("--pretty changes the document")
@@ -275,7 +336,7 @@ func checkC20(c caseC20) (Outcome, error) {
 		return out, fmt.Errorf("records is not an array")
 	}
 	// expected order
-	idx := make([]int, len(c.Doc.Records))
+	idx := make([]int, len(want.Records))
 	for i := range idx {
 		idx[i] = i
 	}
@@ -303,7 +364,7 @@ func checkC20(c caseC20) (Outcome, error) {
 			prev = dd.Days()
 			matched := false
 			var lastErr error
-			for k, r := range c.Doc.Records {
+			for k, r := range want.Records {
 				if used[k] || r.Date.Days() != dd.Days() {
 					continue
 				}
@@ -326,13 +387,13 @@ func checkC20(c caseC20) (Outcome, error) {
 			if !ok {
 				return out, fmt.Errorf("record %d is not an object", i)
 			}
-			if e := checkRecordJSON(o, c.Doc.Records[i]); e != nil {
+			if e := checkRecordJSON(o, want.Records[i]); e != nil {
 				return out, fmt.Errorf("record %d: %v\ntext: %s\njson: %s", i, e, quoteShort(text), quoteShort(res.Out))
 			}
 		}
 	}
 	needsEscape := false
-	for _, r := range c.Doc.Records {
+	for _, r := range want.Records {
 		all := append([]model.Text{}, r.Summary...)
 		for _, e := range r.Entries {
 			all = append(all, e.Summary...)
